@@ -17,16 +17,16 @@ CLAIMED["C12"] = ("5/C12",
    "finite-domain abstract interpretation over SSA + alias/effect analysis + must-pass-through (dominance) rule")
 
 CLAIMED["C16"] = ("5/C16",
-   "Structural necessary conditions on both sides of osmoutils/sumtree. Query side (tree.go): which components of the three-way split each range-sum API adds under which nil-bound condition (sentinel consistency), Increase/Decrease as read-modify-write with (negated) amount on the same key, leaf case mapping key comparison -1/0/+1 to left/exact/right, interior case descending into child idx only when it exists. Node side (node.go): every stored node value is the one whose accumulate() is reported to the parent (push, pull, merge, updateAccumulation), an emptied node is removed from its parent under its own key and deleted only when the left sibling inheriting its key range has the same parent, siblings merge only under one parent and when they fit, the 8-bit split position cannot wrap (interval evaluation), split/merge slice bounds, loud failure on unknown children.",
+   "Structural necessary conditions on both sides of osmoutils/sumtree. Query side (tree.go): which components of the three-way split each range-sum API adds under which nil-bound condition (sentinel consistency), Increase/Decrease as read-modify-write with (negated) amount on the same key, leaf case mapping key comparison -1/0/+1 to left/exact/right, interior case descending into child idx only when it exists. Node side (node.go): every stored node value is the one whose accumulate() is reported to the parent (push, pull, merge, updateAccumulation), an emptied node is removed from its parent under its own key and deleted only when the left sibling inheriting its key range has the same parent, siblings merge only under one parent and when they fit, the 8-bit split position cannot wrap (interval evaluation), split/merge slice bounds, loud failure on unknown children. Also (round 8): the legacy JSON-to-protobuf migration re-encodes every node (recursion one level down into every child).",
    "Not covered: equivalence with a sorted map over operation sequences as such (the rules are necessary conditions found by reading the three repaired defects F8-F10 and the seeded changes), iteration order, every fan-out as a value. Trusted: go/ssa, KV store iterator semantics used by parent()/siblings.",
    "SSA origin-term rules: return-value formulas under dominating nil-tests, phi-edge case analysis, stored-equals-reported pairing, guard/argument rules, unsigned interval (no-wrap) evaluation")
 
 CLAIMED["C15"] = ("5/C15",
-   "Static rules over osmoutils/accum decide: the claimable formula unclaimed + (value - snapshot) x shares; every share mutation folds accrued rewards into the record, writes old +/- delta shares under the same name, and updates the re-read accumulator total by the same delta with the same sign before persisting; failure guards (non-positive delta, remove > held, zero update, unknown position, negative rewards) precede all writes; claim resets or deletes exactly the claimer and truncates only via TruncateDecimal; the writers of position and accumulator records are the listed mutators. Also: UpdatePositionIntervalAccumulation re-bases on the caller's interval value in both directions; every successful claim rewrites or deletes the record.",
+   "Static rules over osmoutils/accum decide: the claimable formula unclaimed + (value - snapshot) x shares; every share mutation folds accrued rewards into the record, writes old +/- delta shares under the same name, and updates the re-read accumulator total by the same delta with the same sign before persisting; failure guards (non-positive delta, remove > held, zero update, unknown position, negative rewards) precede all writes; claim resets or deletes exactly the claimer and truncates only via TruncateDecimal; the writers of position and accumulator records are the listed mutators. Also: UpdatePositionIntervalAccumulation re-bases on the caller's interval value in both directions; every successful claim rewrites or deletes the record. Also (round 8): a surviving position is always re-based after a claim.",
    "Not covered: claim = sum of growth x shares over a history, total shares = sum of positions over histories (numeric/history clauses). Trusted: go/ssa, osmoutils store helpers, KV store.",
    "SSA origin-term / guard / order / who-may-call rules")
 CLAIMED["C17"] = ("5/C17",
-   "Static rules decide: the per-timer BeginBlocker callback is loop-free (at most one tick per block), ticks only under BlockTime > epoch end or not-started and never before StartTime, sets the new start to StartTime or previous start + duration (never block time), signals end-of-epoch n before the increment, persists, then signals start n+1; every subscriber runs through applyFunc on the cache context whose write() is reachable only on the nil-error edge; the recover handler re-panics exactly for the two out-of-gas error types and otherwise sets an error; the subscriber loops have no early exit and the app wires the containing multi-hook.",
+   "Static rules decide: the per-timer BeginBlocker callback is loop-free (at most one tick per block), ticks only under BlockTime > epoch end or not-started and never before StartTime, sets the new start to StartTime or previous start + duration (never block time), signals end-of-epoch n before the increment, persists, then signals start n+1; every subscriber runs through applyFunc on the cache context whose write() is reachable only on the nil-error edge; the recover handler re-panics exactly for the two out-of-gas error types and otherwise sets an error; the subscriber loops have no early exit and the app wires the containing multi-hook. Also (round 8): genesis import hands every epoch on unmodified and the start time is defaulted only when zero.",
    "Not covered: 'exactly once' over block-time sequences as a trace property; grid arithmetic over histories. Trusted: sdk.Context.CacheContext isolation, go/ssa.",
    "SSA guard-disjunct (phi-expanded) dominance rules, cache-context containment, loop/CFG shape rules")
 
@@ -54,12 +54,12 @@ CLAIMED["C20"] = ("5/C20",
    "call-graph obligation propagation with SSA guard facts (actor-identity / owner-like term classification)")
 
 CLAIMED["C03"] = ("5/C03",
-   "Direction inference (abstract interpretation over {EXACT,GE,LE,ANY} with in-place *Mut object updates) proves each of the four next-sqrt-price functions returns a value on its documented side of the exact formula; rounding-class region rules prove CalcAmount0/1Delta use only round-up operations under roundUp and only truncations otherwise; per swap step in all four strategy functions amount-in is computed with roundUp=true and DecRoundUp, amount-out with roundUp=false and Dec(), the fee by round-up multiplication or exact remainder, with the matching price function; estimates run the same compute function with the same arguments on a never-written cache context; the progress/overshoot/no-progress/overcharge guards precede the loop's state updates; totals ceil amount-in and truncate amount-out. Also: the per-step swap-state transition (totals, liquidity after a crossing, tick) is independent of the estimate/execute flag; execution uses the caller's spread factor; checked settlement transfers.",
+   "Direction inference (abstract interpretation over {EXACT,GE,LE,ANY} with in-place *Mut object updates) proves each of the four next-sqrt-price functions returns a value on its documented side of the exact formula; rounding-class region rules prove CalcAmount0/1Delta use only round-up operations under roundUp and only truncations otherwise; per swap step in all four strategy functions amount-in is computed with roundUp=true and DecRoundUp, amount-out with roundUp=false and Dec(), the fee by round-up multiplication or exact remainder, with the matching price function; estimates run the same compute function with the same arguments on a never-written cache context; the progress/overshoot/no-progress/overcharge guards precede the loop's state updates; totals ceil amount-in and truncate amount-out. Also: the per-step swap-state transition (totals, liquidity after a crossing, tick) is independent of the estimate/execute flag; execution uses the caller's spread factor; checked settlement transfers. Also (round 8): every non-zero rounded-up spread fee is collected; ApplySwap stores price, tick and liquidity on every successful path.",
    "Not covered: distance from the exact rational curve, value equality of estimate and execution, round-trip inequality, 18/36-digit regimes (numeric). Assumes positive operands in the direction inference. Trusted: C12's rounding classes, go/ssa.",
    "direction-lattice abstract interpretation + rounding-class dataflow + SSA guard/order/cache-context rules")
 
 CLAIMED["C01"] = ("5/C01",
-   "Rounding-class dataflow and origin-term rules over concentrated-liquidity decide the structural solvency conditions: deposits and amounts charged use only round-up operations, withdrawals, pay-outs, reward growth and claims only truncations (CalcAmount0/1Delta by branch, CalcActualAmounts flag = sign of the liquidity delta, TruncateInt/DecRoundUp/Dec conversions, fee ceiling); every transfer out of a pool, spread-reward or incentive account is exactly the amount just computed, to the position owner, from the matching account; and the set of functions that send from pool-owned accounts is closed. Also: swap totals ceil the charged and truncate the paid amount; an exhausted incentive record is deleted exactly when it exists and nothing remains and only positive remainders are written; dust is divided by the remaining shares only when some remain. Also: a position's checkpoint in uptime accumulator i is re-based on the growth of the same uptime i.",
+   "Rounding-class dataflow and origin-term rules over concentrated-liquidity decide the structural solvency conditions: deposits and amounts charged use only round-up operations, withdrawals, pay-outs, reward growth and claims only truncations (CalcAmount0/1Delta by branch, CalcActualAmounts flag = sign of the liquidity delta, TruncateInt/DecRoundUp/Dec conversions, fee ceiling); every transfer out of a pool, spread-reward or incentive account is exactly the amount just computed, to the position owner, from the matching account; and the set of functions that send from pool-owned accounts is closed. Also: swap totals ceil the charged and truncate the paid amount; an exhausted incentive record is deleted exactly when it exists and nothing remains and only positive remainders are written; dust is divided by the remaining shares only when some remain. Also: a position's checkpoint in uptime accumulator i is re-based on the growth of the same uptime i. Also (round 8): a tick is reported empty only when updated gross and net liquidity are both zero.",
    "Not covered: that accumulated dust over a history covers every claim, lock-bound positions, negative interval accumulator values (history/magnitude clauses). Trusted: C12 rounding classes, bank SendCoins semantics.",
    "rounding-class dataflow (with constant-argument-sensitive helper summaries) + SSA origin-term / guard / who-may-send rules")
 CLAIMED["C07"] = ("5/C07",
@@ -68,17 +68,17 @@ CLAIMED["C07"] = ("5/C07",
    "SSA origin-term / predicate-shape / order / who-may-call rules")
 
 CLAIMED["C18"] = ("5/C18",
-   "Static rules over x/mint decide: minted coin == distributed coin == truncated epoch provision; community-pool amount = minted - staking - pool-incentives - developer share with each term being the amount the distribute call reports it moved; shares are truncated proportions with ratio > 1 rejected; the provision is reduced exactly under epoch >= period + last reduction (strict comparison direction checked), together with SetMinter and the new last-reduction epoch and never after minting; nothing is minted before the start epoch or for another epoch identifier; developer rewards are burned from the mint account and paid from the vesting account inside a +/- supply-offset bracket. Also: the epoch hook wrapper fails when the keeper's epoch step fails.",
+   "Static rules over x/mint decide: minted coin == distributed coin == truncated epoch provision; community-pool amount = minted - staking - pool-incentives - developer share with each term being the amount the distribute call reports it moved; shares are truncated proportions with ratio > 1 rejected; the provision is reduced exactly under epoch >= period + last reduction (strict comparison direction checked), together with SetMinter and the new last-reduction epoch and never after minting; nothing is minted before the start epoch or for another epoch identifier; developer rewards are burned from the mint account and paid from the vesting account inside a +/- supply-offset bracket. Also: the epoch hook wrapper fails when the keeper's epoch step fails. Also (round 8): minter and last-reduction epoch are written and read under the same key and encoding; mintCoins mints the given coins into the mint account.",
    "Not covered: mint account empty / supply growth as numbers, long-run schedule. Trusted: bank keeper, epoch hook invoked once per epoch (C17).",
    "SSA origin-term / guard-disjunct / order rules")
 
 CLAIMED["C10"] = ("5/C10",
-   "Static rules over x/twap decide: accumulators advance by the old record's last spot price (P0->P0, P1->P1, log2(P0)->geometric) times the canonical-ms difference between the record's time and the new time; the arithmetic strategy reads the quote side's accumulator; the geometric result is inverted exactly under (negative & quote0) or (non-negative & not quote0) (path-sensitive boolean-join expansion); the three error-flag comparisons exist; zero price stamps the error time; lookup is reverse iteration ending at t; pruning deletes only after skipping the newest record; new records update both indexes. Also: path-resolved cases of getSpotPrices (error or clamp => error time = block time, value = maximum; neither => previous error time); EndBlock updates every changed pool. Also: the key builders of the record indexes agree on a layout in which pool id and denoms are closed by the separator. The TWAP queries pass the request's interval to the keeper; the two-denom record lookup orders the denoms canonically.",
+   "Static rules over x/twap decide: accumulators advance by the old record's last spot price (P0->P0, P1->P1, log2(P0)->geometric) times the canonical-ms difference between the record's time and the new time; the arithmetic strategy reads the quote side's accumulator; the geometric result is inverted exactly under (negative & quote0) or (non-negative & not quote0) (path-sensitive boolean-join expansion); the three error-flag comparisons exist; zero price stamps the error time; lookup is reverse iteration ending at t; pruning deletes only after skipping the newest record; new records update both indexes. Also: path-resolved cases of getSpotPrices (error or clamp => error time = block time, value = maximum; neither => previous error time); EndBlock updates every changed pool. Also: the key builders of the record indexes agree on a layout in which pool id and denoms are closed by the separator. The TWAP queries pass the request's interval to the keeper; the two-denom record lookup orders the denoms canonically. Also (round 8): the per-block record update and record creation field by field, every most-recent record / every denom pair visited, the hooks and listeners that mark a pool changed and the pool modules firing them on every successful swap or join, the changed-pool key encoding, the unit helpers, the pruning start state.",
    "Not covered: TWAP = time-weighted mean as a value, min/max bounds, reciprocity, precision (integral over histories). Trusted: Exp2/log2 accuracy, go/ssa.",
    "SSA origin-term rules + path-sensitive guard disjuncts")
 
 CLAIMED["C09"] = ("5/C09",
-   "Static rules over x/incentives decide: budget = coins - distributed over remaining epochs (1 if perpetual, paid-over - filled otherwise; 0 is an error); a lock's share is lock amount x remaining coin integer-divided by lock sum x remaining epochs with no round-up operation anywhere in the distribution; the receiver is the lock's reward receiver or, exactly when empty, its owner; the coins put on a pay-out entry (and handed to a concentrated pool's incentive record) are added to the distributed total (paired-argument rule), which is booked with one filled epoch; pay-outs leave the incentives module to the index-aligned receiver list; activation at start time precedes distribution; finishing only for non-perpetual gauges whose last epoch was filled. Also: loops over locks and gauge coins are left early only by failing; the per-denom lock cache is filled from the minimal duration and filtered per gauge. Also: strict minimum-value tests; Distribute and the epoch hook wrapper fail when the pay-out / keeper step fails.",
+   "Static rules over x/incentives decide: budget = coins - distributed over remaining epochs (1 if perpetual, paid-over - filled otherwise; 0 is an error); a lock's share is lock amount x remaining coin integer-divided by lock sum x remaining epochs with no round-up operation anywhere in the distribution; the receiver is the lock's reward receiver or, exactly when empty, its owner; the coins put on a pay-out entry (and handed to a concentrated pool's incentive record) are added to the distributed total (paired-argument rule), which is booked with one filled epoch; pay-outs leave the incentives module to the index-aligned receiver list; activation at start time precedes distribution; finishing only for non-perpetual gauges whose last epoch was filled. Also: loops over locks and gauge coins are left early only by failing; the per-denom lock cache is filled from the minimal duration and filtered per gauge. Also: strict minimum-value tests; Distribute and the epoch hook wrapper fail when the pay-out / keeper step fails. Also (round 8): active gauges are partitioned between the superfluid routine (perpetual and synthetic) and the incentives hook (the rest).",
    "Not covered: sum over epochs <= deposit, module balance >= remainders over histories, group gauges. Trusted: bank multi-send semantics, go/ssa.",
    "SSA origin-term / paired-argument / rounding-class rules")
 
@@ -98,12 +98,12 @@ CLAIMED["C02"] = ("5/C02",
    "SSA origin-term / pairing (paired-argument, paired-result) / who-may-call rules")
 
 CLAIMED["C04"] = ("5/C04",
-   "Static rules over the balancer / stableswap pool models and cfmm_common decide: amounts paid out are truncated and amounts charged ceiled at the pool boundary; the spread factor is taken off the input before the curve and grossed up on the required input; exit amounts are truncated with the share and reserve guards in place; proportional joins truncate shares and ceil the used amount; the stableswap solver scales reserves/input down, the requested output up and divides by (1-sf) rounding up; each state-mutating swap returns exactly its pure calculation's result for the same arguments and applies exactly those coins to the reserves. Also: the balancer single-asset join/exit formulas apply the fee ratio in the pool's favour (Mul on deposits, Quo on required deposits and withdrawals, 1/(1-exit fee) on shares), the single-asset leg is priced against the caller's interim reserve and share total, and the all-asset join mints exactly the shares the model credited. Also: join/exit entries fail when the state change fails.",
+   "Static rules over the balancer / stableswap pool models and cfmm_common decide: amounts paid out are truncated and amounts charged ceiled at the pool boundary; the spread factor is taken off the input before the curve and grossed up on the required input; exit amounts are truncated with the share and reserve guards in place; proportional joins truncate shares and ceil the used amount; the stableswap solver scales reserves/input down, the requested output up and divides by (1-sf) rounding up; each state-mutating swap returns exactly its pure calculation's result for the same arguments and applies exactly those coins to the reserves. Also: the balancer single-asset join/exit formulas apply the fee ratio in the pool's favour (Mul on deposits, Quo on required deposits and withdrawals, 1/(1-exit fee) on shares), the single-asset leg is priced against the caller's interim reserve and share total, and the all-asset join mints exactly the shares the model credited. Also: join/exit entries fail when the state change fails. Also (round 8): both pool models range-check exit fee and swap fee field by field; an LBP poke after the end goes through updateAllWeights.",
    "Not covered: agreement with the constant-weighted-product formula to powPrecision, monotonicity of the stableswap invariant, value conservation over sequences (numeric). Trusted: osmomath Pow / binary search (C13).",
    "SSA origin-term / rounding-class / sibling-agreement rules")
 
 CLAIMED["C08"] = ("5/C08",
-   "Static rules over concentrated-liquidity reward code decide: crossing flips tick snapshots to (global + this swap's growth) - old and global - old per uptime; a new tick starts with the global value iff current >= tick; growth above/below follows the documented four-case table and uptime growth inside the three-way split (path-sensitive condition matching with infeasible-path pruning); accumulators are accrued to now before positions, ticks or incentive records change and before a position claims; claim = set(init + outside) -> claim -> re-base to global - outside if the position still exists; emission deducts exactly the emitted amount only when the record covers it and only feeds the accumulator of its own uptime; the position age (block time - join time) is compared with each uptime with <. Also: one scaling factor per accumulator family, used by growth and claim alike (who-may-call + argument rules); redeposited forfeits start from zero per uptime (no loop-carried accumulator) and are amount / active liquidity. Also: same-uptime re-basing in initOrUpdatePositionUptimeAccumulators.",
+   "Static rules over concentrated-liquidity reward code decide: crossing flips tick snapshots to (global + this swap's growth) - old and global - old per uptime; a new tick starts with the global value iff current >= tick; growth above/below follows the documented four-case table and uptime growth inside the three-way split (path-sensitive condition matching with infeasible-path pruning); accumulators are accrued to now before positions, ticks or incentive records change and before a position claims; claim = set(init + outside) -> claim -> re-base to global - outside if the position still exists; emission deducts exactly the emitted amount only when the record covers it and only feeds the accumulator of its own uptime; the position age (block time - join time) is compared with each uptime with <. Also: one scaling factor per accumulator family, used by growth and claim alike (who-may-call + argument rules); redeposited forfeits start from zero per uptime (no loop-carried accumulator) and are amount / active liquidity. Also: same-uptime re-basing in initOrUpdatePositionUptimeAccumulators. Also (round 8): a surviving position is always re-based after a claim.",
    "Not covered: proportionality / identical positions earn identical rewards as numbers, totals claimable vs paid in over histories. Trusted: osmoutils/accum (C15), go/ssa.",
    "SSA origin-term / path-sensitive predicate / order rules")
 
